@@ -243,6 +243,15 @@ def rules(rep, m):
             r1.instance("%s: region end (%s) at %s: balance %r" % (rn, re_["why"], re_["where"], re_["bal"]))
             if zero_mod(re_["bal"], re_["facts"]):
                 r1.ok()
+            elif " ? " in repr(re_["bal"]) or "ghost:bal#" in repr(re_["bal"]):
+                # the residue is not a statement about the code but about what the engine could express: a holding looked
+                # up through a conditional expression, or a loop whose balance invariant was not inferred - undecided
+                if not hasattr(rep, "deferred_broken"):
+                    rep.deferred_broken = []
+                msg_ = "%s: the balance at the region end (%s) at %s is not expressible (%s)" % (rn, re_["why"], re_["where"], repr(re_["bal"])[:80])
+                if msg_ not in rep.deferred_broken:
+                    rep.deferred_broken.append(msg_)
+                r1.fail()
             else:
                 rep.finding(r1, rn, "imbalance:%s" % re_["why"].split(":")[0],
                             "atomic region ends (%s) with in_use changed by %r more than the holdings: units are "
@@ -289,6 +298,13 @@ def rules(rep, m):
             r2.instance("%s: in_use %s -> %r at %s" % (rn, st["op"], st["new"], st["where"]))
             if lo and hi:
                 r2.ok()
+            elif " ? " in repr(st["new"]) or "ghost:bal#" in repr(st["new"]):
+                if not hasattr(rep, "deferred_broken"):
+                    rep.deferred_broken = []
+                msg_ = "%s: the value stored to in_use at %s is not expressible (%s)" % (rn, st["where"], repr(st["new"])[:80])
+                if msg_ not in rep.deferred_broken:
+                    rep.deferred_broken.append(msg_)
+                r2.fail()
             else:
                 rep.finding(r2, rn, "bounds:%s" % ("low" if not lo else "high"),
                             "store in_use %s (new value %r) is not dominated by facts keeping it within [0, capacity] "
@@ -332,6 +348,13 @@ def rules(rep, m):
               "nonneg": [v for k, v in s.d.items() if k[0] == "v" and isinstance(v, Aff) and k[1] != "ghost:bal"]}
         if zero_mod(cur - want, fx):
             r3.ok()
+        elif " ? " in repr(cur) or "ghost:bal#" in repr(cur):
+            if not hasattr(rep, "deferred_broken"):
+                rep.deferred_broken = []
+            msg_ = "%s: the holding at the %s return at %s is not expressible (%s)" % (acq.name, kind, rt["where"], repr(cur)[:80])
+            if msg_ not in rep.deferred_broken:
+                rep.deferred_broken.append(msg_)
+            r3.fail()
         else:
             rep.finding(r3, acq.name, "outcome:" + kind, "%s return leaves the caller holding %r; expected %r (holding at "
                         "entry %r, requested %r)" % (kind, cur, want, base, req), where=rt["where"])
@@ -606,6 +629,15 @@ def rules(rep, m):
     hcx = FuncCtx(m, hb)
     rv = sorted(hcx.canon(kids(x)[0]) for x in walk(hb.body) if x["kind"] == "ReturnStmt")
     r5.instance("held_by_process returns %s" % rv)
+    if len(rv) == 1:
+        # one conditional expression instead of two returns: (found) ? record->amount : 0
+        rn_ = [kids(x)[0] for x in walk(hb.body) if x["kind"] == "ReturnStmt" and kids(x)]
+        t_ = common.as_ternary(hcx, hb, rn_[0]) if rn_ else ""
+        mm_ = re.fullmatch(r"\((.+) \? (.+) : (.+)\)", t_)
+        if mm_ and mm_.group(3).strip() in ("0", "0.0") and "amount" in mm_.group(2):
+            rv = ["0", mm_.group(2) if rec_key(mm_.group(2)) else rv[0]]
+            if not rec_key(rv[1]):
+                raise AnalysisBroken("cmb_resourcepool_held_by_process: the record read (%s) is not understood" % mm_.group(2))
     if len(rv) != 2 or rv[0] != "0" or not rec_key(rv[1]):
         rep.finding(r5, hb.name, "query", "held-by query returns %s" % rv, where=m.rel(hb.where))
         r5.fail()
